@@ -345,4 +345,9 @@ def handler(p):
 
 
 if __name__ == "__main__":
+    import sys
+
+    # unbounded recursion (the progressive decider on a recursive grammar, F38) ends in RecursionError either way; a lower
+    # limit only makes those runs end sooner (a program of depth 40 needs < 400 frames)
+    sys.setrecursionlimit(700)
     main(handler)
